@@ -29,7 +29,7 @@ DrainF(kk, stt, hl, bad) ==
        IN DrainF(r.k, r.st, hl, bad \/ (rest # <<>> /\ r.k.pipe[L] # rest))
 
 GRaise(S) ==
-  /\ Quiescent /\ NoOps /\ RaiseOK /\ k.disp[S].h # "dfl"
+  /\ Quiescent /\ NoOps /\ RaiseOK /\ ~NoRaise(k.disp[S].h)
   /\ LET r == DrainF(RaiseK(k, S), st, held, FALSE) IN ~r.bad /\ k' = r.k /\ st' = r.st
   /\ g' = [g EXCEPT !.raises = Bump]
   /\ UNCHANGED <<held, cfg, kind, op, h, fired>>
